@@ -110,18 +110,17 @@ def run(c):
     thorough = c.tier == "thorough"
     sd = c.spec_dir("specA")
     import time
-    t0 = [time.time()]
     def phase(name):
-        log("-- %s done at +%.1fs" % (name, time.time() - c.t0)); t0[0] = time.time()
+        log("-- %s done at +%.1fs" % (name, time.time() - c.t0))
     # ---- are the concrete cipher specifications usable?  (another builder owns them: read-only, fall back to abstract)
     with open(os.path.join(sd, "MC_X01_concrete.tla"), "w") as f: f.write(KAT)
     with open(os.path.join(sd, "MC_X01_concrete.cfg"), "w") as f: f.write("INIT Init\nNEXT Next\n")
     res = c.tlc(sd, "MC_X01_concrete", workers=1, timeout=300)
-    concrete = res.clean
+    concrete = res.clean and not os.environ.get("X01_ABSTRACT")       # X01_ABSTRACT=1 forces the fallback (abstract checks only)
     extra = None
     if not concrete:
         c.note("spec/Eea.tla / spec/Eia.tla not usable (%s): MAC and ciphertext octets are NOT checked in this run, abstract checks only" %
-               (res.errors[0][:120] if res.errors else "rc=%d" % res.rc))
+               ("forced by X01_ABSTRACT" if res.clean else res.errors[0][:120] if res.errors else "rc=%d" % res.rc))
         stub = os.path.join(c.scratch, "ChanConcrete.tla")
         with open(stub, "w") as f: f.write(STUB)
         extra = {stub: "ChanConcrete.tla"}
@@ -203,39 +202,6 @@ def run(c):
     mism = c.validate("Trace_X01", events, stateful=True, shards=12 if thorough else 10, extra_files=extra, timeout=2400, cfg=tcfg)
 
     phase('validation')
-    # ---- the binding must discriminate: corrupt single logged fields of recorded behaviours and require TLC to object
-    rec = [json.loads(x) for x in read_ndjson(out2)]
-    cut = [i for i, e in enumerate(rec) if e["op"] == "TraceReset"]
-    nia_of, cur = {}, None
-    for i, e in enumerate(rec):
-        if e["op"] == "TraceReset": cur = e["nia"]
-        nia_of[i] = cur
-    def pick(pred):
-        for i, e in enumerate(rec):
-            if nia_of[i] != 0 and pred(e): return i
-        raise Infra("self-test: no suitable recorded event")
-    targets = {}
-    i = pick(lambda e: e["op"] == "Deliver" and e["ok"]); targets[i] = ("ok", "rejected")
-    j = pick(lambda e: e["op"] == "Send" and len(e["wire"]) > 8); targets[j] = ("mac", "header")
-    k = pick(lambda e: e["op"] == "Deliver" and e["ok"] and e["rget"] % 256 == 0); targets[k] = ("rget", "receiver-count")
-    sel = []
-    for idx, (field, want) in sorted(targets.items()):
-        lo = max(x for x in cut if x <= idx); hi = min([x for x in cut if x > idx] + [len(rec)])
-        evs = [dict(e) for e in rec[lo:hi]]
-        e = evs[idx - lo] = dict(evs[idx - lo])
-        if field == "ok": e["ok"] = False
-        elif field == "mac": e["wire"] = list(e["wire"]); e["wire"][1] ^= 1
-        else: e["rget"] -= 256
-        sel.append((sum(len(x[2]) for x in sel) + idx - lo, want, [json.dumps(x) for x in evs]))
-    flat = sum([x[2] for x in sel], [])
-    got = c.validate("Trace_X01", flat, stateful=True, shards=1, extra_files=extra)
-    c.cov["traces_validated_against_impl"] -= len(flat)
-    for pos, want, _ in sel:
-        if not any(g[0] == pos and g[1][3] == want for g in got):
-            raise Infra("self-test: a corrupted %s field at event %d was not rejected by the trace specification (got %s)" % (want, pos, [(g[0], g[1][3]) for g in got][:6]))
-    c.cov["selftest_corrupted_fields_rejected"] = len(sel)
-    phase('self-test')
-
     def history_of(idx):
         lo = idx
         while lo > 0 and '"TraceReset"' not in events[lo][:40]: lo -= 1
@@ -274,6 +240,39 @@ def run(c):
         c.cov["traces_validated_against_impl"] -= len(ev3)
         return any(a[1][3] == t[3] for a in again)
     c.triage(firsts, classify, confirm)
+
+    # ---- the binding must discriminate: corrupt single logged fields of recorded behaviours and require TLC to object
+    rec = [json.loads(x) for x in read_ndjson(out2)]
+    cut = [i for i, e in enumerate(rec) if e["op"] == "TraceReset"]
+    nia_of, cur = {}, None
+    for i, e in enumerate(rec):
+        if e["op"] == "TraceReset": cur = e["nia"]
+        nia_of[i] = cur
+    def pick(pred):
+        for i, e in enumerate(rec):
+            if nia_of[i] != 0 and pred(e): return i
+        raise Infra("self-test: no suitable recorded event")
+    targets = {}
+    i = pick(lambda e: e["op"] == "Deliver" and e["ok"]); targets[i] = ("ok", "rejected")
+    j = pick(lambda e: e["op"] == "Send" and len(e["wire"]) > 8); targets[j] = ("mac", "header")
+    k = pick(lambda e: e["op"] == "Deliver" and e["ok"] and e["rget"] % 256 == 0); targets[k] = ("rget", "receiver-count")
+    sel = []
+    for idx, (field, want) in sorted(targets.items()):
+        lo = max(x for x in cut if x <= idx); hi = min([x for x in cut if x > idx] + [len(rec)])
+        evs = [dict(e) for e in rec[lo:hi]]
+        e = evs[idx - lo] = dict(evs[idx - lo])
+        if field == "ok": e["ok"] = False
+        elif field == "mac": e["wire"] = list(e["wire"]); e["wire"][1] ^= 1
+        else: e["rget"] -= 256
+        sel.append((sum(len(x[2]) for x in sel) + idx - lo, want, [json.dumps(x) for x in evs]))
+    flat = sum([x[2] for x in sel], [])
+    got = c.validate("Trace_X01", flat, stateful=True, shards=1, extra_files=extra)
+    c.cov["traces_validated_against_impl"] -= len(flat)
+    for pos, want, _ in sel:
+        if not any(g[0] == pos and g[1][3] == want for g in got):
+            raise Infra("self-test: a corrupted %s field at event %d was not rejected by the trace specification (got %s)" % (want, pos, [(g[0], g[1][3]) for g in got][:6]))
+    c.cov["selftest_corrupted_fields_rejected"] = len(sel)
+    phase('self-test')
 
     # ---- coverage accounting (information; no verdicts here)
     stats = dict(accepted=0, rejected=0, accepted_undecodable=0, sqn_wraps=0, carries_into_bit16=0, crossed_00FFFF_010000=0, count_wraps=0, concrete_short=0)
